@@ -737,7 +737,7 @@ func TestC07(t *testing.T) {
 	cases := 0
 	rapid.Check(t, func(rt *rapid.T) {
 		cases++
-		v := th.PickVariant(rt, "vtu", "vtu", "vtu", "vtw", "vtw", "vocc", "voco", "vocu", "voccw")
+		v := th.PickVariant(rt, "vtu", "vtu", "vtu2", "vtw", "vtw", "vocc", "voco", "vocu", "voccw")
 		kinds := kindsFor(v)
 		for _, k := range kinds {
 			applicable[k] = true
